@@ -168,6 +168,24 @@ struct inst
         bf w = A;
         w.set(static_cast<E>(i), !(((a >> i) & 1U) != 0));
         observe(w, a ^ (mask_t{1} << i), "set(toggle)", false);
+        {
+          // the reference operator[] hands out denotes the BIT, not a snapshot of it: changes made by
+          // another path (set, a second reference, |=, &=) are visible through it
+          bf x = A;
+          bool const was = ((a >> i) & 1U) != 0;
+          auto r1 = x[static_cast<E>(i)];
+          auto r2 = x[static_cast<E>(i)];
+          bool ok = static_cast<bool>(r1) == was;
+          x.set(static_cast<E>(i), !was);
+          ok = ok && static_cast<bool>(r1) == !was && static_cast<bool>(r2) == !was && x.get(static_cast<E>(i)) == !was;
+          r2 = was;
+          ok = ok && static_cast<bool>(r1) == was && x.get(static_cast<E>(i)) == was;
+          x |= static_cast<E>(i);
+          ok = ok && static_cast<bool>(r1) && static_cast<bool>(r2);
+          x &= bf::null();
+          ok = ok && !static_cast<bool>(r1) && !static_cast<bool>(r2);
+          if (!ok) fail("bitfield|operator[]|reference-is-not-live", "a reference obtained from operator[] for enumerator " + std::to_string(i) + " of " + show(a) + " does not follow later changes of that bit");
+        }
         break;
       }
     // initializer list with the first two members of a (duplicates allowed)
